@@ -31,11 +31,12 @@ type replayDriver struct {
 }
 
 var replayDrivers = map[string]replayDriver{
-	"codec-encode": {Pkg: "pkg/entities", File: "entities/codec_replay_test.go", Test: "TestVerifReplayCodec", Mode: "encode", TimeoutS: 120},
-	"codec-decode": {Pkg: "pkg/entities", File: "entities/codec_replay_test.go", Test: "TestVerifReplayCodec", Mode: "decode", TimeoutS: 120},
-	"session":      {Pkg: "pkg/exporter", File: "exporter/session_replay_test.go", Test: "TestVerifReplaySession", TimeoutS: 120},
-	"packet":       {Pkg: "pkg/collector", File: "collector/packet_replay_test.go", Test: "TestVerifReplayPacket", TimeoutS: 120},
+	"codec-encode":  {Pkg: "pkg/entities", File: "entities/codec_replay_test.go", Test: "TestVerifReplayCodec", Mode: "encode", TimeoutS: 120},
+	"codec-decode":  {Pkg: "pkg/entities", File: "entities/codec_replay_test.go", Test: "TestVerifReplayCodec", Mode: "decode", TimeoutS: 120},
+	"session":       {Pkg: "pkg/exporter", File: "exporter/session_replay_test.go", Test: "TestVerifReplaySession", TimeoutS: 120},
+	"packet":        {Pkg: "pkg/collector", File: "collector/packet_replay_test.go", Test: "TestVerifReplayPacket", TimeoutS: 120},
 	"registry-enum": {Pkg: "pkg/registry", File: "registry/enum_replay_test.go", Test: "TestVerifEnumRegistry", TimeoutS: 120},
+	"window":        {Pkg: "cmd/collector", File: "cmdcollector/window_replay_test.go", Test: "TestVerifReplayWindow", TimeoutS: 120},
 	"expiry": {Pkg: "pkg/intermediate", File: "intermediate/expiry_replay_test.go", Test: "TestVerifReplayExpiry", TimeoutS: 120,
 		Rewrite: [3]string{"aggregate.go", "time.Now()", "verifNow()"}},
 }
